@@ -297,7 +297,7 @@ class Numpy:
                      "ix_", "tile", "repeat", "abs", "array", "column_stack", "count_nonzero", "logical_not", "where",
                      "flip", "sum", "zeros_like", "full_like", "copy", "arange", "log", "exp", "sqrt", "maximum", "minimum",
                      "nonzero", "delete", "argsort", "concatenate", "asarray", "shape", "isscalar", "array_equal", "cumsum",
-                     "diag", "eye", "round", "nanmean", "mean", "prod", "squeeze", "atleast_2d", "transpose", "nan_to_num"):
+                     "diag", "eye", "round", "nanmean", "mean", "prod", "squeeze", "atleast_2d", "transpose", "nan_to_num", "triu"):
             fn = getattr(self, "np_" + name, None)
             if fn is not None:
                 T[getattr(np, name)] = fn
@@ -1425,6 +1425,16 @@ class Numpy:
             return elem_ite(t, norm_elem(x, "float"), norm_elem(y, "float"), "float")
         return self.elementwise(I, f, [cond, a[1], a[2]], "float", n)
 
+    def np_triu(self, I, a, k, n):
+        arr = self.coerce(I, a[0])
+        d = k.get("k", a[1] if len(a) > 1 else 0)
+        if arr.ndim != 2:
+            raise Unsupported("np.triu of ndim != 2")
+        dt = zint(d)
+        zero = False if arr.kind == "bool" else 0
+        return NDArr.fresh(lambda r, c: elem_ite(z3.simplify(zint(c) - zint(r) >= dt), norm_elem(arr.get(r, c), arr.kind), norm_elem(zero, arr.kind), arr.kind),
+                           arr.shape, arr.kind)
+
     def np_nan_to_num(self, I, a, k, n):
         raise Unsupported("np.nan_to_num")
 
@@ -1500,6 +1510,26 @@ class Numpy:
                 if is_all:
                     return SV(z3.ForAll([b], z3.Implies(rng, body)))
                 return SV(z3.Exists([b], z3.And(rng, body)))
+            if axis is None and all(ax[0] == "fix" or ax[3] in (1, -1) for ax in arr.axes) and \
+                    len([ax for ax in arr.axes if ax[0] == "ax"]) == arr.ndim:
+                # quantify over BUFFER indices (clean triggers): b ranges over the image of the view
+                bvars = [z3.Int(I.ctx.fresh_name("qb")) for _ in arr.axes]
+                conds = []
+                bidx = []
+                for bv, ax in zip(bvars, arr.axes):
+                    if ax[0] == "fix":
+                        bidx.append(ax[1])
+                        continue
+                    _, va, off, step = ax
+                    v = (bv - off) if step == 1 else (off - bv)
+                    conds += [v >= 0, v < zint(arr.shape[va])]
+                    bidx.append(bv)
+                qv = [bv for bv, ax in zip(bvars, arr.axes) if ax[0] == "ax"]
+                body = I.sym_bool(arr.buf.fn(tuple(bidx)))
+                rng = z3.And(*conds)
+                if is_all:
+                    return SV(z3.ForAll(qv, z3.Implies(rng, body)))
+                return SV(z3.Exists(qv, z3.And(rng, body)))
             if axis is None:
                 vars_ = [z3.Int(I.ctx.fresh_name("q")) for _ in range(arr.ndim)]
                 rng = z3.And(*[z3.And(v >= 0, v < zint(d)) for v, d in zip(vars_, arr.shape)])
